@@ -201,3 +201,8 @@ def run(ctx):
               "rule lookup depends on its arguments only",
               "orc_target_get_rule reads or writes process-wide state (%s): a lookup made under one flag set can be answered from one made under another" %
               sorted({n.name for n in memo})[:4])
+    # "For every flag subset under which the program still compiles, the code computes the same results": which constants end up in
+    # the compiler's pool depends on the flags (pshufb masks only with SSSE3 ...); a lookup that confuses the two kinds of entry makes
+    # the result depend on them (rule shared with C02)
+    importlib.import_module("rules.c02").const_pool_key(db, rep, "R-CONST-POOL-KEY")
+
